@@ -48,8 +48,13 @@ def treeJson (univ : List String) (get : String → Option Bytes) : Json :=
   Json.arr ((sortPairs (univ.filterMap (fun p => (get p).map (fun c => (p, natsJson c))))).map
     (fun e => Json.arr #[Json.str e.1, e.2])).toArray
 
-def stateJson (univ : List String) (s : St String) (e : Option Err) : Json :=
+def commitJson (c : Commit String) : Json :=
+  Json.arr #[(match c.parent with | some p => Json.num (p : Nat) | none => Json.null),
+             treeJson (c.tree.map (·.1)).eraseDups c.tree.get]
+
+def stateJson (n0 : Nat) (univ : List String) (s : St String) (e : Option Err) : Json :=
   Json.mkObj [
+    ("newcommits", Json.arr ((s.commits.drop n0).map commitJson).toArray),
     ("refs", Json.arr ((sortPairs (s.refs.map (fun r => (String.ofList r.1, Json.num (r.2 : Nat))))).map
       (fun r => Json.arr #[Json.str r.1, r.2])).toArray),
     ("head", Json.num (s.head : Nat)),
@@ -100,7 +105,7 @@ def handle (op : String) (j : Json) : Except String Json := do
       let o : Opts := { dry := dry, ignoreEmpty := ie, remoteBranch := rb.map String.toList }
       let r := transaction fault rev.toList o body s
       s := r.1
-      outs := outs.push (stateJson univ s r.2)
+      outs := outs.push (stateJson commits.length univ s r.2)
     pure (Json.arr outs)
   | _ => throw s!"unknown op {op}"
 
